@@ -60,8 +60,8 @@ static void c04_gen(Rng &rng, Plan &plan, bool thorough)
 		op.set("kind", (int64_t)rng.below(6)).set("pos", (int64_t)rng.below(1000000)).set("len", (int64_t)(1 + rng.below(8))).set("val", (int64_t)rng.below(256));
 		plan.ops.push_back(op);
 	}
-	static const int64_t ml[] = { -1, -1, -1, 1, 20000, 1000000 };
-	plan.setp("memlimit", ml[rng.below(6)]);
+	static const int64_t ml[] = { -1, -1, -1, -1, 1, 20000, 1000000, 40000, 50000, 70000, 100000, 150000, 300000, 600000 };
+	plan.setp("memlimit", ml[rng.below(14)]);
 	// field-level faults: a count or size field holding a boundary value (2^60,
 	// 2^63-1, 2^32, ...); in an Index the Number of Records is at offset 1.
 	// Now and then the CRC32 protecting the damaged header/Index is recomputed.
@@ -203,7 +203,7 @@ static Bytes make_data(const Plan &plan, int entry, Chain &chain, Verdict &v, lz
 		if (uncomp_size) *uncomp_size = in.size();
 		switch (entry) {
 		case E_ALONE: { lzma_options_lzma lz = chain.lz; lz.preset_dict = nullptr; lz.preset_dict_size = 0; lzma_build(in, &lz, data, err); break; }
-		case E_LZIP: lz_build_member(in, (int)(plan.p("art_seed") & 1), 0x0C + (uint8_t)(plan.p("art_seed") % 6), data, err); if (plan.p("art_streams", 1) > 1) lz_build_member(in, 1, 0x0D, data, err); break;
+		case E_LZIP: lz_build_member(in, (int)(plan.p("art_seed") & 1), 0x0C + (uint8_t)(plan.p("art_seed") % 10), data, err); if (plan.p("art_streams", 1) > 1) lz_build_member(in, 1, 0x0D, data, err); break;
 		case E_RAW: {
 			lzma_stream s = LZMA_STREAM_INIT;
 			if (lzma_raw_encoder(&s, chain.f) == LZMA_OK) {
@@ -307,11 +307,12 @@ static void c04_exec(const Plan &plan, Verdict &v)
 	c04_exec_once(plan, v, &d1);
 	int entry = (int)plan.p("entry") % E_COUNT;
 	bool st_stream = entry == E_STREAM || entry == E_AUTO || entry == E_ALONE || entry == E_LZIP || entry == E_MICROLZMA || entry == E_RAW || entry == E_BLOCK;
-	if (v.ok && st_stream && d1 != 0 && plan.p("rand_seed") % 2 == 0) {
+	bool small_format = entry == E_LZIP || entry == E_ALONE || entry == E_AUTO || entry == E_MICROLZMA;
+	if (v.ok && st_stream && d1 != 0 && (small_format || plan.p("rand_seed") % 2 == 0)) {
 		// poison differential (stands in for MSan): the same decode with fresh allocations filled with
 		// another byte must deliver the same bytes and the same final status
 		Verdict v2;
-		SimAlloc::poison_byte = 0x3C;
+		SimAlloc::poison_byte = 0x00;   // the "lucky" case of a fresh heap: zeros
 		c04_exec_once(plan, v2, &d2);
 		SimAlloc::poison_byte = 0xA5;
 		v.count("oracle.poison_differential_runs");
